@@ -20,7 +20,7 @@ numbers.
 
 Environment: ABRA_REPO (tree under test, honoured by slicer/engine), U15_JOBS (parallel
 harnesses, default 2), U15_MAX_RSS_KB (a cbmc process of this unit above it is killed and
-its obligation reported UNDECIDED; default 5 GB).
+its obligation reported UNDECIDED; default 4.2 GB).
 """
 import os
 import re
@@ -76,7 +76,7 @@ IDSET = [
     ("iter", "IdSet::iter / IntoIterator for &IdSet", (["q_iter"], None, "the single history [a,b] (iterator adaptors cost CBMC ~100 s per history)"),
      (["t_iter"], None, B_Q3)),
     ("into_iter", "IntoIterator for IdSet", (["q_into_iter"], None, "the single history [a,b] (iterator adaptors cost CBMC ~100 s per history)"),
-     (["t_into_iter"], None, B_Q3)),
+     (["t_into_iter_a", "t_into_iter_b", "t_into_iter_c"], None, B_Q3 + " (one harness per history)")),
     ("clone", "Clone for IdSet", (["q_clone"], None, B_Q3 + ", then one insert into the clone"),
      (["t_clone"], None, B_H3 + ", then one insert into the clone")),
 ]
@@ -211,7 +211,7 @@ class _Watchdog(threading.Thread):
 
 
 def _kani(crate, harnesses, timeout, jobs, playback=False):
-    wd = _Watchdog(crate, int(os.environ.get("U15_MAX_RSS_KB", "5000000")))
+    wd = _Watchdog(crate, int(os.environ.get("U15_MAX_RSS_KB", "4200000")))
     wd.start()
     try:
         res = E.run_kani(crate, harnesses, timeout=timeout, jobs=jobs, playback=playback)
